@@ -28,7 +28,7 @@ func main() {
 		isish.ChildMain(runCase)
 	}
 	vf.Main("C32", "exploration", func(r *vf.Run) {
-		r.Rule("PRNG histories of 40 steps against a server with three interfaces (eth0, eth1 with an Up neighbor each; eth2 with no or an Init neighbor): reception of an LSP (local LSP ID or one of 4 foreign IDs incl. a second fragment and a pseudonode, sequence number 0..5, remaining lifetime 0/1/2/300/1200) from either neighbor, reception of a CSNP (full or partial range, entries for a random subset of the IDs) or PSNP (1-3 entries), 1/2/10/300/1500 aging ticks, and LSP / PSNP / CSNP transmission rounds; plus bulk histories with 16/20/92/100 LSPs. After every step: (lsdb-seq, aging) the LSDB holds for every LSP ID the highest sequence number accepted so far with a lifetime that decreases by one per tick until it ages out; (flags-lsp, flags-csnp, flags-psnp, flags-frame) SRM/SSN flags on the circuits with an Up adjacency follow ISO 10589 7.3.15.1/7.3.15.2 (newer/same/older LSP; SNP entry same/older/newer/unknown; LSPs in a CSNP's range it does not list; nothing else changes); (send-lsp/psnp/csnp) what a transmission round puts on the wire is exactly what the flags / the LSDB call for, parsed with an independent codec; (own-refresh) the local LSP is present with lifetime > 0 after every tick once the regeneration the server requested has run; (own-seq) after a copy of the local LSP with a higher sequence number was received, and at every later regeneration, the local LSP's sequence number exceeds every received copy. distinct_nontrivial = histories containing at least 8 of the 9 step classes (newer, same, older LSP, CSNP, PSNP, tick, three kinds of transmission round)")
+		r.Rule("PRNG histories of 40 steps against a server with three interfaces (eth0, eth1 with an Up neighbor each; eth2 with no or an Init neighbor): reception of an LSP (local LSP ID or one of 4 foreign IDs incl. a second fragment and a pseudonode, sequence number 0..5, remaining lifetime 0/1/2/300/1200) from either neighbor, reception of a CSNP (full or partial range, entries for a random subset of the IDs) or PSNP (1-3 entries), 1/2/10/300/1500 aging ticks, and LSP / PSNP / CSNP transmission rounds; plus bulk histories with 16/20/92/100 LSPs. After every step: (lsdb-seq, aging) the LSDB holds for every LSP ID the highest sequence number accepted so far with a lifetime that decreases by one per tick until it ages out; (flags-lsp, flags-csnp, flags-psnp, flags-frame) SRM/SSN flags on the circuits with an Up adjacency follow ISO 10589 7.3.15.1/7.3.15.2 (newer/same/older LSP; SNP entry same/older/newer/unknown; LSPs in a CSNP's range it does not list; nothing else changes); (send-lsp/psnp/csnp) what a transmission round puts on the wire is exactly what the flags / the LSDB call for, parsed with an independent codec; (own-refresh) the local LSP is present with lifetime > 0 after every tick once the regeneration the server requested has run; (own-seq) copies of the local LSP (sequence numbers 1..12, in any order, half of them arriving before the updater has run the regeneration the previous one triggered) : once the requested regeneration has run, and at every later regeneration, the local LSP's sequence number exceeds every copy received so far. distinct_nontrivial = histories containing at least 8 of the 9 step classes (newer, same, older LSP, CSNP, PSNP, tick, three kinds of transmission round)")
 		r.Assume("Server.Start is not called: aging, transmission and regeneration run synchronously through the verif hooks, serialised by the harness",
 			"LSPs with sequence number 0 or remaining lifetime 0 and SNP entries with such values are fed but only 'sequence numbers never decrease' is judged for them (the statement is silent about purges)",
 			"bio-rd's CSNP range test ignores the LSP number; LSPs just outside a partial range are not judged")
@@ -61,5 +61,6 @@ func main() {
 		r.Require("psnp_rounds", 1000)
 		r.Require("csnp_rounds", 1000)
 		r.Require("own_newer_copies", 100)
+		r.Require("own_copies_deferred", 500)
 	})
 }
